@@ -571,6 +571,14 @@ class Interp:
             return
         # constant-truth tests on None-ness of parameters are not resolved: both arms analysed and joined
         e1, e2 = dict(env), dict(env)
+        # `if len(L) == 1 [and ...]`: in that arm the list of per-block values has one element, which is then the whole
+        conj = st.test.values if isinstance(st.test, ast.BoolOp) and isinstance(st.test.op, ast.And) else [st.test]
+        for c_ in conj:
+            if isinstance(c_, ast.Compare) and len(c_.ops) == 1 and isinstance(c_.ops[0], ast.Eq) and const_value(c_.comparators[0]) == 1 and isinstance(c_.left, ast.Call) and isinstance(c_.left.func, ast.Name) and c_.left.func.id == "len" and len(c_.left.args) == 1 and isinstance(c_.left.args[0], ast.Name):
+                nm_ = c_.left.args[0].id
+                lv_ = e1.get(nm_)
+                if lv_ is not None and lv_.k == "list" and lv_.elem is not None and lv_.axis in BLOCK_AXES:
+                    e1[nm_] = V("list", axis="?1", elem=mark_part(lv_.elem, False))
         self.exec_block(st.body, e1)
         self.exec_block(st.orelse, e2)
         d1, d2 = e1.pop("<dead>", False), e2.pop("<dead>", False)
@@ -954,6 +962,8 @@ class Interp:
             return V("func", note="arraymethod:" + e.attr, origin=base)
         if base.k == "list":
             return V("func", note="listmethod:" + e.attr, origin=base)
+        if base.k == "dict" and e.attr in ("items", "values", "keys", "get", "copy"):
+            return V("func", note="dictmethod:" + e.attr, origin=base)
         if base.k == "func":
             return V("func", note=(base.note or "") + "." + e.attr)
         return unk(f"attribute {e.attr} of {fmt(base)}")
@@ -1315,6 +1325,9 @@ class Interp:
             return mark_part(base.origin)  # one block of a Dask array
         if base.k == "func" and base.note and base.note.endswith("hdf5"):
             return unk("hdf5")
+        if base.k == "bool":
+            # a row / element / slice of a mask is a mask
+            return V("bool", sh=None)
         if not base.is_numlike:
             return unk(f"subscript of {fmt(base)}")
         if base.sh is None:
@@ -1351,7 +1364,8 @@ class Interp:
                 self.violation("DIM.SHAPE", node, f"axis of kind {sh[pos]} is indexed with an index over {iv.index_of}")
             pos += 1
         out.extend(sh[pos:])
-        return base.copy(sh=tuple(out), cval=None, count_of=None, index_of=None)
+        # every element of an array of zeros is zero: a view / selection of it still is "zero in every dimension"
+        return base.copy(sh=tuple(out), cval=(base.cval if (base.wild and base.cval == 0) else None), count_of=None, index_of=None)
 
     # -- calls -----------------------------------------------------------------------------------------
     def ev_Call(self, e, env):
@@ -1364,6 +1378,24 @@ class Interp:
 
     def call_repo(self, callee, argvals, kwvals, node, self_val=None):
         """Context-sensitive analysis of a repository callee (inlining with memo)."""
+        # a hand-written log-sum-exp (COVER.lse_evidence): typed like the library reducers, whatever its loop looks like
+        if callee.posparams and not callee.self_name and (argvals or kwvals):
+            from .dim_lib import _lse_cached, reduce_axes, _axes_from
+            okl, _why = _lse_cached(self.P, callee)
+            if okl:
+                pos = list(callee.posparams)
+                av = argvals[0] if argvals else kwvals.get(pos[0])
+                if av is not None and av.is_numlike:
+                    axv = kwvals.get("axis", argvals[pos.index("axis")] if "axis" in pos and pos.index("axis") < len(argvals) else None)
+                    if axv is not None:
+                        axes_ = _axes_from(axv) if axv.k != "none" else None
+                    else:
+                        a_ = callee.node.args
+                        allp = a_.posonlyargs + a_.args
+                        dflt_ = {x.arg: d_ for x, d_ in zip(allp[len(allp) - len(a_.defaults):], a_.defaults)}
+                        axes_ = const_value(dflt_["axis"]) if "axis" in dflt_ else 0
+                    self.c.facts.setdefault("lse_functions", set()).add(callee.key)
+                    return reduce_axes(self, av, axes_, node, "lse")
         if self.depth >= self.c.max_depth or callee.key in self.c.stack:
             decl = self.c.decls.get("returns", {}).get(callee.key)
             return parse_type(decl) if decl else unk(f"recursion/depth at {callee.key}")
